@@ -32,29 +32,6 @@ def TaskS.PreOK (t : TaskS) : Prop := t.pre = .virtual ∨ t.pre = .released
 /-- A call is fine if it leaves the state alone or takes a legal step. -/
 def StepOK (a b : TState) : Prop := a = b ∨ Legal a b = true
 
-/-- All the mutating calls of the `Task` API. -/
-inductive TaskCall
-  | release (time : Option Int)
-  | schedule (time : Int) (p : PlacementS)
-  | unschedule
-  | start (time fuzzed : Int)
-  | step (now dt : Int)
-  | finish (time : Option Int)
-  | cancel (time : Int)
-  | preempt
-  | updateRemaining (r : Int)
-
-def TaskS.call (t : TaskS) : TaskCall → TaskS.TRes
-  | .release time => t.doRelease time
-  | .schedule time p => t.doSchedule time p
-  | .unschedule => t.doUnschedule
-  | .start time fuzzed => t.doStart time fuzzed
-  | .step now dt => ((t.doStep now dt).1, none)
-  | .finish time => t.doFinish time
-  | .cancel time => t.doCancel time
-  | .preempt => t.doPreempt
-  | .updateRemaining r => t.updateRemaining r
-
 theorem updateRemaining_state (t : TaskS) (r : Int) :
     (t.updateRemaining r).1.state = t.state ∧ (t.updateRemaining r).1.pre = t.pre := by
   unfold TaskS.updateRemaining; split
